@@ -98,6 +98,13 @@ def compare(run, case, via_yaml, scratch, contracts=None):
     if all(v is not None for v in verdicts):
         m = model
         v = verdicts[0]
+        if v == "outcome" and not m.ok and m.incidental and m.fail_kind == "processor_error" and m.nodes:
+            odd = [x for x in m.nodes[-1].params.values() if isinstance(x, (list, dict, str, tuple)) or x is None]
+            if odd:
+                # arithmetic of a leaf on a non-scalar parameter value: plain Python raises where numpy scalars
+                # broadcast — a representation detail of the harness components, not pipeline semantics
+                run.count("odd_value_arithmetic_not_compared")
+                return model
         if v == "outcome":
             viol(f"outcome_{'model_ok_real_fail' if m.ok else 'model_fail_real_ok'}",
                  f"reference {'succeeds' if m.ok else 'fails at node %s (%s)' % (m.fail_index, m.fail_kind)} but the run "
